@@ -7,7 +7,7 @@ machinery therefore never sees a stale result.  VERIF_NO_CACHE=1 disables the st
 """
 import os
 import time
-from . import layer_t, layer_i, layer_r, layer_g, layer_s, layer_k, corpus
+from . import layer_t, layer_i, layer_r, layer_g, layer_s, layer_k, layer_n, corpus
 from .common import tree_hash, cache_get, cache_put, Scratch, REPRS, log
 
 
@@ -159,4 +159,20 @@ def get_k(tier="quick"):
         r = layer_k.run_layer_k(sc, tier, jobs=12)
     r["cache_hit"] = False
     cache_put("layer_k", key, r)
+    return r
+
+
+def get_n(pid, tier):
+    key = tree_hash(("N", pid, tier))
+    r = cache_get("layer_n", key)
+    if r is not None:
+        r["cache_hit"] = True
+        return r
+    t0 = time.time()
+    specs = {"C12": layer_n.c12_specs, "C13": layer_n.c13_specs, "C14": layer_n.c14_specs}[pid](tier)
+    with Scratch("vf-n-") as sc:
+        r = layer_n.run_negative(sc, specs, name="neg_" + pid.lower())
+    r["wall_s"] = time.time() - t0
+    r["cache_hit"] = False
+    cache_put("layer_n", key, r, keep=8)
     return r
